@@ -6,7 +6,7 @@
    history es, so quantifying over es quantifies over all orders of these events. *)
 From Coq Require Import String.
 From PDV Require Import lib.Base gen.Gen_C08 gen.Gen_C09 model.C08_Steps model.C08_Builder model.C09_OpCtl
-     proof.C08_BuilderProof proof.C09_StatusProof proof.C09_CtlProof proof.C09_LeftProof proof.C09_StaleProof
+     proof.C08_BuilderProof proof.C09_StatusProof proof.C09_CtlProof proof.C09_LeftProof proof.C08_ListFacts proof.C09_CountProof proof.C09_StaleProof
      proof.C09_OwnProof proof.C09_Skel.
 Local Open Scope Z_scope.
 
@@ -84,17 +84,24 @@ Proof.
   rewrite E in F. clear Hok. discriminate F.
 Qed.
 
-(* ---- step accounting: an unapplied, unfinished, safe step counts nothing — refuted for ChangePeerV2Leave (S2) ---- *)
-Definition C09_unapplied_step_counts_nothing_full : Prop :=
-  forall r s, nodup_stores (peers r) = true -> is_finish r s = false -> check_safety r s = None -> conf_ver_changed r s = 0.
-
-Theorem C09_unapplied_step_counts_nothing_refuted : ~ C09_unapplied_step_counts_nothing_full.
+(* ---- step accounting: a step that is neither finished nor unsafe in a region counts nothing in ConfVerChanged - every
+        step kind, any region with one peer per store and non-zero peer ids; the one exception (RemovePeer whose store
+        holds a peer with another id) is part of the statement.  Before ChangePeerV2Leave.ConfVerChanged was repaired
+        (it looked the demoted peer up by PEER id) this failed for a pending leave step (S2). ---- *)
+Theorem C09_unapplied_step_counts_nothing :
+  forall r s, nodup_stores (peers r) = true -> region_ids_nonzero r = true -> step_ids_nonzero s = true ->
+    remove_names_other_peer r s = false ->
+    is_finish r s = false -> check_safety r s = None -> conf_ver_changed r s = 0.
 Proof.
-  intros F. destruct s2_overcount as (H1 & H2 & H3).
-  specialize (F s2_region s2_step eq_refl H1 H2). rewrite H3 in F. discriminate F.
+  intros r s Hn Hi Hz Hx Hf Hs. apply unfinished_safe_counts_nothing; auto. apply nodup_stores_ND. exact Hn.
 Qed.
 
-(* why S2 cannot hide a foreign change: in a joint state the stores accept nothing but the leave command *)
+(* the S2 state: two demotions pending, nothing counted *)
+Theorem C09_s2_repaired :
+  is_finish s2_region s2_step = false /\ check_safety s2_region s2_step = None /\ conf_ver_changed s2_region s2_step = 0.
+Proof. exact s2_counts_nothing. Qed.
+
+(* in a joint state the stores accept nothing but the leave command *)
 Theorem C09_joint_state_admits_only_leave :
   forall r, is_in_joint r = true ->
     (forall t p, apply_cmd r (CChangePeer t p) = None) /\ (forall c cs, apply_cmd r (CChangePeerV2 (c :: cs)) = None).
@@ -140,10 +147,9 @@ Theorem C09_conf_ver_changed_bound :
     op_conf_ver_changed o r <= accounted (o_steps o) (o_cur o) + conf_ver_changed r s.
 Proof. exact op_cvc_bound. Qed.
 
-(* partial: whenever the current (unfinished) step counts nothing — true for every step kind except a
-   ChangePeerV2Leave with pending demotions (S2) and a RemovePeer naming another peer id — a heartbeat in
-   which the step's precondition fails, or conf_ver is ahead of what the passed steps account for, ends the operator *)
-Theorem C09_foreign_change_cancels_partial :
+(* core form: whenever the current (unfinished) step counts nothing while its precondition holds, a heartbeat in which
+   the step's precondition fails, or conf_ver is ahead of what the passed steps account for, ends the operator *)
+Theorem C09_foreign_change_cancels_core :
   forall c rid id o r,
     NoDup (map fst (running c)) ->
     alist_get (running c) rid = Some id -> get_op c id = Some o -> o_rid o = rid ->
@@ -151,26 +157,42 @@ Theorem C09_foreign_change_cancels_partial :
     0 <= conf_ver r - o_cv o < two64 ->
     o_st (fst (op_check o r)) = STARTED ->
     forall s, snd (op_check o r) = Some s ->
-    conf_ver_changed r s = 0 ->
+    (check_safety r s = None -> conf_ver_changed r s = 0) ->
     (is_some (check_safety r s) = true \/ accounted (o_steps o) (o_cur (fst (op_check o r))) < conf_ver r - o_cv o) ->
     forall c', c' = fst (ctl_step c (EHeartbeat rid)) ->
     alist_get (running c') rid <> Some id \/ exists o', get_op c' id = Some o' /\ is_end_status (o_st o') = true.
 Proof. exact foreign_change_cancels_pf. Qed.
 
-(* full statement (without the proviso): refuted by a state in which S2 makes the stale test blind — a state the
-   stores cannot produce (C09_joint_state_admits_only_leave), which is why no wrong decision of the real controller
-   was observed *)
-Definition C09_foreign_change_cancels_full : Prop :=
+(* foreign_change_cancels: the proviso discharged for every step kind (C09_unapplied_step_counts_nothing) *)
+Theorem C09_foreign_change_cancels :
+  forall c rid id o r,
+    NoDup (map fst (running c)) ->
+    alist_get (running c) rid = Some id -> get_op c id = Some o -> o_rid o = rid ->
+    alist_get (truth c) rid = Some r ->
+    0 <= conf_ver r - o_cv o < two64 ->
+    nodup_stores (peers r) = true -> region_ids_nonzero r = true ->
+    o_st (fst (op_check o r)) = STARTED ->
+    forall s, snd (op_check o r) = Some s ->
+    step_ids_nonzero s = true ->
+    remove_names_other_peer r s = false ->      (* not: RemovePeer{store, id} while the store holds a peer with another id *)
+    (is_some (check_safety r s) = true \/ accounted (o_steps o) (o_cur (fst (op_check o r))) < conf_ver r - o_cv o) ->
+    forall c', c' = fst (ctl_step c (EHeartbeat rid)) ->
+    alist_get (running c') rid <> Some id \/ exists o', get_op c' id = Some o' /\ is_end_status (o_st o') = true.
+Proof. exact foreign_change_cancels_full_pf. Qed.
+
+(* without the exception the statement is false: a RemovePeer naming peer 12 while the store holds peer 99 counts the
+   removal as done (a state that takes two configuration changes to reach, so no single change hides behind it) *)
+Definition C09_foreign_change_cancels_any_state : Prop :=
   forall c rid id o r s,
     alist_get (running c) rid = Some id -> get_op c id = Some o -> alist_get (truth c) rid = Some r ->
     o_st (fst (op_check o r)) = STARTED -> snd (op_check o r) = Some s ->
     accounted (o_steps o) (o_cur (fst (op_check o r))) < conf_ver r - o_cv o ->
     alist_get (running (fst (ctl_step c (EHeartbeat rid)))) rid <> Some id.
 
-Theorem C09_foreign_change_cancels_refuted : ~ C09_foreign_change_cancels_full.
+Theorem C09_foreign_change_cancels_needs_matching_remove_id : ~ C09_foreign_change_cancels_any_state.
 Proof.
-  intros F. destruct s2_not_cancelled as (H1 & _ & _ & H4 & _).
-  apply (F s2_ctl 1 1 (Opr 1 1 6 1 [s2_step'] 0 STARTED 1 false 1 false false) s2_region' s2_step'); try reflexivity; try exact H4; try exact H1.
+  intros F. destruct rm_not_cancelled as (H1 & _ & _ & H4 & _).
+  apply (F rm_ctl 1 1 (Opr 1 1 6 1 [rm_step] 0 STARTED 1 false 1 false false) rm_region rm_step); try reflexivity; try exact H4; try exact H1.
 Qed.
 
 (* ---- not yet proved, visible and listed under "todo" in checks/C09.json ---- *)
@@ -202,12 +224,14 @@ Print Assumptions C09_admitted_epoch_equal.
 Print Assumptions C09_own_steps_never_stale_bounded.
 Print Assumptions C09_readded_peer_repaired.
 Print Assumptions C09_own_steps_never_stale_needs_fresh_ids.
-Print Assumptions C09_unapplied_step_counts_nothing_refuted.
+Print Assumptions C09_unapplied_step_counts_nothing.
+Print Assumptions C09_s2_repaired.
 Print Assumptions C09_joint_state_admits_only_leave.
 Print Assumptions C09_left_running_is_ended.
 Print Assumptions C09_left_running_has_record.
 Print Assumptions C09_records_truthful.
 Print Assumptions C09_running_keyed_by_own_region.
 Print Assumptions C09_conf_ver_changed_bound.
-Print Assumptions C09_foreign_change_cancels_partial.
-Print Assumptions C09_foreign_change_cancels_refuted.
+Print Assumptions C09_foreign_change_cancels_core.
+Print Assumptions C09_foreign_change_cancels.
+Print Assumptions C09_foreign_change_cancels_needs_matching_remove_id.
